@@ -3,7 +3,7 @@
 cd /verif
 for d in seeded/*/; do
   n=$(basename $d)
-  props=$(python3 -c "import json;m=json.load(open('$d/meta.json'));print(' '.join(m.get('detected_by') or [m['property']]))")
+  props=$(python3 -c "import json,re;m=json.load(open('$d/meta.json'));print(' '.join(dict.fromkeys(re.findall(r'C[0-9][0-9]', ' '.join(m.get('detected_by') or [m['property']])))))")
   cd /repo && git apply /verif/$d/patch.diff || { echo "$n: patch does not apply"; cd /verif; continue; }
   cd /verif
   for p in $props; do
